@@ -137,6 +137,26 @@ harness!(c04_uf_merge_small, 6, {
     cov!(!ch, "unchanged");
 });
 
+// a delta with TWO entries (no heap: ArrayMap) merged into a receiver holding one symbolic union: the
+// links of one merge must not invalidate each other (roots change while the delta is applied)
+//@ prop=C02,C04 heavy=1
+harness!(c04_uf_merge_array2, 7, {
+    let (mut x, mx) = uf_sym::<1>();
+    let (a, b, c, d) = (below(D as u8), below(D as u8), below(D as u8), below(D as u8));
+    assume(a != c); // distinct keys in the delta
+    let delta = UnionFind::<ArrayMap<u8, Cell<u8>, 2>>::new(ArrayMap { keys: [a, c], vals: [Cell::new(b), Cell::new(d)] });
+    let ch = x.merge(delta);
+    let mut want = mx;
+    want.link(a as usize, b as usize);
+    want.link(c as usize, d as usize);
+    assert!(x.model().eqv(&want), "C04 union-find merge(two-entry delta) != join of partitions");
+    assert!(ch == !want.eqv(&mx), "C02 union-find merge(two-entry delta) flag wrong");
+    let (p, q) = (below(D as u8), below(D as u8));
+    assert!(x.same(p, q).into_reveal() == want.same(p as usize, q as usize), "C04 same() after merge != join of partitions");
+    cov!(ch, "changed");
+    cov!(!ch, "unchanged");
+});
+
 // C01/C02/C03 for union-find values reachable through the API (2 symbolic unions each)
 //@ heavy=1 tier=thorough
 harness!(c01i_uf, 6, { laws::c01i::<Uf>(0); });
